@@ -742,7 +742,8 @@ def _extract_parameters(
         # Parameters that were not fixed
         variable_name: str
         for variable_name in filter(
-            lambda _: _.endswith(f"_{internal_id}"),
+            lambda _: _.endswith(f"_{internal_id}")
+            and _.rsplit("_", 1)[0] in units,
             fit.var_names,
         ):
             par = fit.params[variable_name]
